@@ -73,7 +73,18 @@ def keepid_delete(v, h):
     """known finding: with kept ids inside one file, the ids are no longer unique and deletion (which unlinks by id, file-wide)
     removes the same-id entity on the other side as well"""
     what, step, detail = v
-    return what.startswith("one call changed both") and h["ops"][step][0] == "delete" and detail.get("kept_ids")
+    if not (what.startswith("one call changed both") and h["ops"][step][0] == "delete"):
+        return False
+    if detail.get("kept_ids"):
+        return True
+    # the pair that reports it may be a fresh-id pair: what matters is that the entity deleted here had a same-id twin
+    # (made by SOME earlier kept-id copy in this file) - the deletion then makes a duplicated id disappear from the
+    # walker's list of duplicated ids
+    if step == 0:
+        return False
+    before = set(h["infos"][step - 1].get("dup_ids", []))
+    after = set(h["infos"][step].get("dup_ids", []))
+    return bool(before - after)
 
 
 def run(ctx):
@@ -82,4 +93,4 @@ def run(ctx):
 
 
 def replay(ctx):
-    return storeprop.replay(ctx, ID, predicate)
+    return storeprop.replay(ctx, ID, predicate, known_matchers={"keepid_delete": keepid_delete})
